@@ -261,18 +261,66 @@ TY_PROOF = [
     (r'(?s)\.retain\(\|loc[^;]*\);', 'after', RETAIN_PROOF % {'v0': 'v0', 'cur': 'decl.locations@', 'pred': 'loc_not_file'}),
     (r'if let Some\(supers\) = self\.supers\.get_mut', 'before',
      'proof { assert(remove_type == (full1.contains_key(gid) && decl_gone(full1[gid], file_id))); } /*@C10.type.decl-removed-iff-no-location-left*/'),
-    (r'supers\.retain\(', 'before', 'let ghost w0 = supers@;'),
-    (r'supers\.retain\([^;]*\);', 'after', RETAIN_PROOF % {'v0': 'w0', 'cur': 'supers@', 'pred': 'sup_not_file'}),
+    # the per-id retain is anchored by its surrounding `if let Some(supers) = self.supers.get_mut(&id) { ... if supers.is_empty()`
+    # (the sweep over all keys, when present, has a `supers.retain(` of its own)
+    (r'if let Some\(supers\) = self\.supers\.get_mut\(&id\) \{', 'after', 'let ghost w0 = supers@;'),
+    (r'supers\.retain\([^;]*\);(?=\s*if supers\.is_empty\(\))', 'after', RETAIN_PROOF % {'v0': 'w0', 'cur': 'supers@', 'pred': 'sup_not_file'}),
     (r'(?s)if remove_type \{[^}]*\}', 'after', '''proof {
                     lemma_ty_step(full0, full1, self.full_name_type_map@, sup0, sup1, self.supers@, gp0, gp1, self.generic_params@, ids, n1, file_id); /*@C10.type.decls-of-file.step*/
                     lemma_names_step(full0, full1, sup0, sup1, gp0, gp1, ids, n1, file_id, remove_type,
                         g0, g1, self.global_name_type_map@, i0, i1, self.internal_name_type_map@, l0, l1, self.local_name_type_map@); /*@C10.type.names-of-removed-decls.step*/
                 }'''),
+    # `supers` as the per-id loop leaves it (end of the `if let Some(type_id_list)` block) ...
+    (r'(?s)if remove_type \{[^}]*\}\s*\}\s*\}', 'after', '''let ghost sup_l = self.supers;
+        proof { assert(ty_inv(old(self).full_name_type_map@, self.full_name_type_map@, old(self).supers@, sup_l@, old(self).generic_params@, self.generic_params@,
+                              ty_listed(old(self), file_id), ty_listed(old(self), file_id).len() as int, file_id)); }'''),
+    # ... and when the clean-up of `types` starts: untouched (no sweep in the text) or swept over all keys (HashMap::retain + the closure's contract)
+    (r'if let Some\(type_owners\) = self\.in_filed_type_owner', 'before',
+     'proof { assert(self.supers@ == sup_l@ || sup_swept(sup_l@, self.supers@, file_id)); }'),
     (r'let __v0 = vx_set_into_vec', 'before', 'let ghost ty0 = self.types@;'),
     (r'for type_owner in __v0 \{', 'after', 'proof { lemma_in_pref_step(__v0@, it2.index@ + 1); }'),
     (r'self\.types\.\w+\(&type_owner\);\s*\}', 'after', 'proof { lemma_in_pref_full(__v0@); }'),
-    (r'\}\s*$', 'before', 'proof { if type_wf(old(self)) { lemma_type_final(old(self), self, file_id); } }'),
+    (r'\}\s*$', 'before', '''proof {
+            let lst = ty_listed(old(self), file_id);
+            lemma_ty_inv_parts(old(self).full_name_type_map@, self.full_name_type_map@, old(self).supers@, sup_l@, old(self).generic_params@, self.generic_params@, lst, lst.len() as int, file_id);
+            lemma_sup_final(old(self).supers@, sup_l@, self.supers@, lst, lst.len() as int, file_id);
+            if type_wf(old(self)) {
+                // the exit state with `supers` as the per-id loop left it: the index invariant makes that one clean already
+                let mid = LuaTypeIndex { supers: sup_l, ..*self };
+                lemma_type_final(old(self), &mid, file_id);
+                lemma_type_final_sw(old(self), &mid, self, file_id);
+            }
+        }'''),
 ]
+SWEEP_HINT = '''proof {
+                let ghost s0 = old(supers)@;
+                assert(exists|keep: Seq<bool>| keep.len() == s0.len()
+                    && (forall|i: int| 0 <= i < keep.len() ==> #[trigger] keep[i] == (s0[i].file_id != file_id)) && supers@ == filter_by(s0, keep));
+                let keep = choose|keep: Seq<bool>| keep.len() == s0.len()
+                    && (forall|i: int| 0 <= i < keep.len() ==> #[trigger] keep[i] == (s0[i].file_id != file_id)) && supers@ == filter_by(s0, keep);
+                lemma_filter_by_is_filter(s0, keep, sup_not_file(file_id));
+            }'''
+
+
+def _type_sweep_present():
+    """is the sweep of `supers` over all keys in the text under proof? (decides only which MUTANTS are offered: the ones that edit the
+    sweep have nothing to edit without it; the overlay itself serves both shapes)"""
+    import os
+    try:
+        with open(os.path.join(os.environ.get('VERIF_REPO', '/repo'), DB + 'type/mod.rs'), encoding='utf-8') as f:
+            return re.search(r'self\.supers\.retain\(', f.read()) is not None
+    except OSError:
+        return True
+
+
+SWEEP_MUTANTS = [
+    {'name': 'type-sweep-deleted', 'item': 'LuaTypeIndex::remove', 'pattern': r'(?s)self\.supers\.retain\(\|_, supers\| \{.*?\n\s*\}\);', 'repl': '',
+     'expect': r'C10\.type\.no-super-of-removed-file-anywhere'},
+    {'name': 'type-sweep-retain-negated', 'item': 'LuaTypeIndex::remove', 'pattern': r's\.file_id != file_id(\);\s*!supers\.is_empty)', 'repl': r's.file_id == file_id\1',
+     'expect': r'C10\.type\.sweep-retain-predicate'},
+    {'name': 'type-sweep-keeps-empty-supers', 'item': 'LuaTypeIndex::remove', 'pattern': r'!supers\.is_empty\(\)', 'repl': 'true',
+     'expect': r'C10\.type\.sweep-drop-empty'},
+] if _type_sweep_present() else []
 
 UNIT = {
     'extra_rules': [
@@ -309,6 +357,15 @@ UNIT = {
         ('c10-type-loc-closure-contract', r'\|loc\| ([^;]*?)\);',
          r'|loc: &LuaDeclLocation| -> (b: bool) ensures b == (loc.file_id != file_id) /*@C10.type.location-retain-predicate*/ { \1 });',
          'contract overlay on the closure handed to Vec::retain: parameter type, named result and `ensures` are added, body verbatim'),
+        ('c10-type-sweep-closure-contract', r'\|_, supers\| \{(\s*)supers\.retain\(\|s\| ([^;]*?)\);(.*?)\n(\s*)\}\);',
+         r'|_k: &LuaTypeDeclId, supers: &mut Vec<InFiled<LuaType>>| -> (b: bool)\n                ensures final(supers)@ == old(supers)@.filter(sup_not_file(file_id)) /*@C10.type.sweep-inner-retain*/,\n'
+         r'                    b == (final(supers)@.len() > 0) /*@C10.type.sweep-drop-empty*/\n            {\1supers.retain(|s: &InFiled<LuaType>| -> (b2: bool) ensures b2 == (s.file_id != file_id) /*@C10.type.sweep-retain-predicate*/ { \2 });\n            '
+         + SWEEP_HINT.replace('\\', '\\\\') + r'\3\n\4});',
+         'contract overlay on the closure handed to HashMap::retain (the sweep of `supers` over all keys) and on the closure it hands to Vec::retain: '
+         'parameter types, a name for the ignored `_` key parameter, named results and `ensures` are added; a ghost `proof { }` block (erased by '
+         'compilation, Verus checks it) follows the inner retain; the body statements and the predicate expression are kept verbatim and Verus '
+         'checks the ensures against them. Optional: nothing to do on a text without the sweep',
+         16),   # re.S
         ('c10-type-super-closure-contract', r'\|s\| ([^;]*?)\);',
          r'|s: &InFiled<LuaType>| -> (b: bool) ensures b == (s.file_id != file_id) /*@C10.type.super-retain-predicate*/ { \1 });',
          'contract overlay on the closure handed to Vec::retain: parameter type, named result and `ensures` are added, body verbatim'),
@@ -457,7 +514,8 @@ UNIT = {
                       old(self).local_name_type_map@, final(self).local_name_type_map@, decl_id.ident()) /*@C10.type.name-of-removed-decl-dropped*/'''},
         'LuaTypeIndex::remove': rm(
             'type/mod.rs', 'LuaTypeIndex',
-            rules=['hashset-into-iter-vec-t', 'c10-type-loc-closure-contract', 'c10-type-super-closure-contract'],
+            rules=['hashset-into-iter-vec-t', 'c10-type-loc-closure-contract', ('c10-type-sweep-closure-contract', {'optional': True}),
+                   ('c10-type-super-closure-contract', {'count': 1})],
             attrs='#[verifier::loop_isolation(false)]', loops=TY_LOOPS, iter_names={0: 'it', 1: 'it2'}, proof=TY_PROOF,
             ensures='''
             // under the index invariant: no location, super, bound type, namespace entry or file-scoped name map of the removed file remains;
@@ -469,10 +527,16 @@ UNIT = {
                 && dropped(old(self).file_types@, final(self).file_types@, file_id)
                 && dropped(old(self).in_filed_type_owner@, final(self).in_filed_type_owner@, file_id) /*@C10.type.per-file-maps*/,
             // for the ids listed under the file: a declaration keeps exactly its locations in other files (and goes, with its generic params,
-            // when none is left); a super list keeps exactly the supers contributed by other files (and goes when empty); every other
-            // declaration / super list / generic-params entry is unchanged
-            ty_inv(old(self).full_name_type_map@, final(self).full_name_type_map@, old(self).supers@, final(self).supers@,
-                   old(self).generic_params@, final(self).generic_params@, ty_listed(old(self), file_id), ty_listed(old(self), file_id).len() as int, file_id) /*@C10.type.decls-of-file*/,
+            // when none is left); every other declaration / generic-params entry is unchanged
+            decl_inv(old(self).full_name_type_map@, final(self).full_name_type_map@,
+                     old(self).generic_params@, final(self).generic_params@, ty_listed(old(self), file_id), ty_listed(old(self), file_id).len() as int, file_id) /*@C10.type.decls-of-file*/,
+            // ... and a super list keeps exactly the supers contributed by other files (and goes when empty); no super list is added, any other
+            // one is untouched or filtered the same way, and only a list without a super of another file is dropped
+            sup_after(old(self).supers@, final(self).supers@, ty_listed(old(self), file_id), ty_listed(old(self), file_id).len() as int, file_id) /*@C10.type.supers-of-listed-ids*/,
+            // under EVERY key of `supers` (not only the ids listed under the file: `---@class DA: S` in a file that reaches NS.DA of another
+            // file through `---@using NS` files its super clause under that other file's declaration): no super filed by the removed file
+            // remains and no empty list remains; each remaining list is the old one without the removed file's supers, in order
+            sup_clean(final(self).supers@, file_id) && sup_swept(old(self).supers@, final(self).supers@, file_id) /*@C10.type.no-super-of-removed-file-anywhere*/,
             // type caches of the owners listed under the file are gone, all others unchanged
             (forall|o: LuaTypeOwner| #[trigger] final(self).types@.contains_key(o) <==> old(self).types@.contains_key(o) && !ty_owners(old(self), file_id).contains(o))
                 && (forall|o: LuaTypeOwner| #[trigger] final(self).types@.contains_key(o) ==> final(self).types@[o] == old(self).types@[o]) /*@C10.type.types-of-file-gone*/,
@@ -557,6 +621,7 @@ UNIT = {
          'expect': r'C10\.type\.name-of-removed-decl-dropped'},
         {'name': 'type-keeps-names-of-removed-decls', 'item': 'LuaTypeIndex::remove', 'pattern': r'self\.remove_type_decl_name\(&id\);', 'repl': '',
          'expect': r'C10\.type\.names-of-removed-decls\.step'},
+    ] + SWEEP_MUTANTS + [
         {'name': 'dbindex-skips-types', 'item': 'DbIndex::remove', 'pattern': r'self\.types_index\.remove\(file_id\);', 'repl': '', 'expect': r'C10\.DbIndex\.types_index'},
         {'name': 'dbindex-skips-operators', 'item': 'DbIndex::remove', 'pattern': r'self\.operator_index\.remove\(file_id\);', 'repl': '', 'expect': r'C10\.DbIndex\.operator_index'},
         {'name': 'dbindex-skips-members', 'item': 'DbIndex::remove', 'pattern': r'self\.members_index\.remove\(file_id\);', 'repl': '', 'expect': r'C10\.DbIndex\.members_index'},
@@ -603,6 +668,9 @@ UNIT = {
         'LuaReferenceIndex::remove: index_reference\'[k] = index_reference[k] minus f; k dropped iff that is empty; same for global_references; four per-file maps lose f',
         'LuaMemberIndex::remove: under member_wf: members/member_current_owner = entries of other files; per owner each item keeps its ids of other files; dead items and emptied owners dropped; member_wf kept',
         'LuaTypeIndex::remove: under type_wf: a declaration keeps exactly its locations in other files and disappears (with generic params and its registered name) iff none is left; supers likewise; bound types of the file\'s owners gone; namespace entries and the file-scoped name map of f gone',
+        'LuaTypeIndex::remove, WITHOUT type_wf: supers\'[k] = supers[k].filter(s.file_id != f) in order for EVERY key k; k dropped iff that is empty (C10.type.no-super-of-removed-file-anywhere: '
+        'needs the sweep `self.supers.retain(..)` over all keys; on a text without it this clause fails and is the finding: a.lua `---@using NS1` + `---@class DA: DSuper0`, '
+        'b.lua `---@namespace NS1` + `---@class DA` + `---@class DSuper0`, remove a.lua -> supers["NS1.DA"] keeps the entry of a.lua)',
         'DbIndex::remove: each of the above holds for the corresponding field',
     ],
 }
